@@ -10,10 +10,10 @@ META = {
     "level_text": "props/C12.v: inductive invariants over a transition system with an unbounded number of threads and messages and an arbitrary scheduler "
                   "(atomicity unit = one source line of _send touching shared state): mutual exclusion of the write section, per-thread 'wire ++ in-flight ++ queue = "
                   "issued so far, in order' (nothing lost, duplicated or reordered) in every reachable state, empty queue + free lock + complete wire at quiescence, "
-                  "no blocking step, and the hand-off invariant. The instruction program is regenerated from _send by tools/pygen/sendq.py (fail-closed) and tied by "
+                  "no blocking step, the hand-off invariant, and termination under ANY (even unfair) scheduler via a strictly decreasing potential (c12_terminates). The instruction program is regenerated from _send by tools/pygen/sendq.py (fail-closed) and tied by "
                   "reflexivity. Schedules of the real code (exhaustive for 2 threads x 1 message, preemption-bounded beyond, with re-entrant sends) are replayed in the extracted model.",
     "level_note": "Trusted: Coq kernel, pygen, extraction+driver, the settrace scheduler; GIL atomicity of list.append / list.pop(0) / list truth test / Lock.acquire(False) / release "
-                  "(one source line = one atomic step). Termination under unfair scheduling is NOT proved (only absence of blocking); re-entrant sends are covered as a fresh thread id "
+                  "(one source line = one atomic step). Re-entrant sends are covered as a fresh thread id "
                   "running while its parent is parked at the write.",
     "technique": "Coq inductive invariant over an unbounded-thread transition system; generated instruction program tied by reflexivity; deterministic-scheduler replay of real threads against the extracted model",
     "gen": ["sendq"],
